@@ -55,3 +55,47 @@ C01_OBJ = [Ob('obj_' + n, 'C01/obj_entry.cpp', ENTRY_REAL_NOP11, defines={'OP': 
            for (op, n, fn) in _c01_ops]
 OBLIGATIONS['C01'] = C01_OBJ + OBLIGATIONS['C07']
 META['C01'] = dict(outside='templates longer than the bound; the bodies behind the sinks (C02/C07/C08/C12/C13)', assumptions=['C_GetObjectSize: no handle of a private object exists while the user is not logged in (purge invariant proved by C11 hm_tokenLoggedOut)'])
+
+# ----------------------------------------------------------------------------- C03
+C03_REAL = ['SoftHSM.cpp', 'session_mgr/SessionManager.cpp', 'session_mgr/Session.cpp', 'slot_mgr/Slot.cpp', 'slot_mgr/Token.cpp',
+            'data_mgr/SecureDataManager.cpp', 'handle_mgr/HandleManager.cpp', 'handle_mgr/Handle.cpp', 'data_mgr/ByteString.cpp',
+            'crypto/SymmetricAlgorithm.cpp', 'crypto/AsymmetricAlgorithm.cpp', 'crypto/MacAlgorithm.cpp', 'crypto/HashAlgorithm.cpp',
+            'crypto/SymmetricKey.cpp', 'crypto/AESKey.cpp', 'access.cpp']
+C03_STUBS = {'_ZN11SlotManager7getSlotEm': 'stub_getSlot', '_ZN18SessionObjectStore13sessionClosedEm': 'stub_sos_sessionClosed',
+             '_ZN18SessionObjectStore17allSessionsClosedEm': 'stub_sos_allSessionsClosed', '_ZN18SessionObjectStore14tokenLoggedOutEm': 'stub_sos_tokenLoggedOut',
+             '_ZN17SecureDataManager6remaskER10ByteString': 'stub_remask', '_ZN7RFC488012PBEDeriveKeyERK10ByteStringRS0_PP6AESKey': 'stub_pbe',
+             '_ZN4Slot9initTokenER10ByteStringPh': 'stub_initToken',
+             '_ZN17SecureDataManager5loginERK10ByteStringS2_': 'stub_sdm_login', '_ZN17SecureDataManager14reAuthenticateERK10ByteStringS2_': 'stub_sdm_reauth',
+             '_ZN13HandleManager10getSessionEm': 'stub_hm_getSession', '_ZN13HandleManager10addSessionEmPv': 'stub_hm_addSession',
+             '_ZN13HandleManager13sessionClosedEm': 'stub_hm_sessionClosed', '_ZN13HandleManager17allSessionsClosedEmb': 'stub_hm_allSessionsClosed',
+             '_ZN13HandleManager14tokenLoggedOutEm': 'stub_hm_tokenLoggedOut'}
+_c03_ops = [(0, 'open', 'C_OpenSession'), (1, 'close', 'C_CloseSession'), (2, 'closeall', 'C_CloseAllSessions'),
+            (4, 'logout', 'C_Logout'), (5, 'sameclass', 'C_GetSessionInfo on two sessions of one token'), (6, 'inittoken_gate', 'C_InitToken session gate')]
+def _c03_sess(op, n, fn, target, tok, tiers):
+    suffix = '' if target is None else '_s%d_t%d' % (target, tok)
+    d = {'OP': op, 'NSESS': 4, 'BS_CAP': 4, 'TARGET': 1 if target is None else target, 'TARGET2': 2, 'TARGET_TOK': 0 if tok is None else tok}
+    return Ob('sess_' + n + suffix, 'C03/login_ind.cpp', C03_REAL, defines=d, unwind=5, stubs=C03_STUBS, caps='C03/caps.h', flags=['--no-array-field-sensitivity'], tiers=tiers,
+              desc='%s: one inductive step from an arbitrary session table / login state satisfying INV (PKCS#11 login rules); INV preserved, per-call contract, failing call changes nothing, other token untouched%s' % (fn, '' if target is None else ' [call addresses table entry %d on token %d or an unknown handle]' % (target, tok)),
+              bounds='<= 4 session-table entries, 2 tokens, PIN <= 4 bytes; HandleManager / SessionObjectStore notifications observed as calls', timeout=600, mem=14)
+OBLIGATIONS['C03'] = [_c03_sess(0, 'open', 'C_OpenSession', None, None, ('quick', 'thorough')),
+                      _c03_sess(5, 'sameclass', 'C_GetSessionInfo on two sessions of one token', None, None, ('quick', 'thorough')),
+                      _c03_sess(6, 'inittoken_gate', 'C_InitToken session gate', None, None, ('quick', 'thorough'))]
+for (op, n, fn) in [(1, 'close', 'C_CloseSession'), (4, 'logout', 'C_Logout')]:
+    for target in range(4):
+        for tok in range(2):
+            OBLIGATIONS['C03'].append(_c03_sess(op, n, fn, target, tok, ('quick', 'thorough') if (target, tok) in ((1, 0), (2, 1)) else ('thorough',)))
+SDM_LOGIN_STUBS = {'_ZN17SecureDataManager5loginERK10ByteStringS2_': 'stub_sdm_login', '_ZN17SecureDataManager14reAuthenticateERK10ByteStringS2_': 'stub_sdm_reauth'}
+OBLIGATIONS['C03'] += [
+    Ob('tok_' + n, 'C03/token_login.cpp', ['slot_mgr/Token.cpp', 'data_mgr/SecureDataManager.cpp', 'data_mgr/ByteString.cpp'], defines={'OP': op, 'BS_CAP': 4}, unwind=5,
+       stubs=SDM_LOGIN_STUBS, caps='C03/caps.h',
+       desc='Token::%s from an arbitrary login state of one token: succeeds only from the public state with an accepted PIN and then logs in exactly that user; a failed call changes no login flag' % n,
+       bounds='one token; PIN <= 4 bytes; PIN acceptance is a symbolic boolean (contract of SecureDataManager::login: logs out first, then accepts or not)')
+    for (op, n) in [(0, 'loginSO'), (1, 'loginUser'), (2, 'reAuthenticate'), (3, 'logout')]]
+OBLIGATIONS['C03'] += [
+    Ob('clogin', 'C03/clogin_entry.cpp', ENTRY_REAL_NOP11, defines={}, unwind=18, caps='common/entry_caps.h',
+       stubs={'_ZN5Token7loginSOER10ByteString': 'sink_loginSO', '_ZN5Token9loginUserER10ByteString': 'sink_loginUser',
+              '_ZN5Token14reAuthenticateER10ByteString': 'sink_reAuth', '_ZN14SessionManager13haveROSessionEm': 'sink_haveRO'},
+       desc='C_Login wrapper: user type -> Token call, SO login not attempted while an RO session exists, caller PIN passed unmodified, re-authentication flag cleared only by an accepted context-specific login',
+       bounds='PIN <= 16 bytes; one session')]
+META['C03'] = dict(outside='more than 4 simultaneously open sessions; the cryptographic PIN check itself (C04); C_InitPIN/C_SetPIN (C04); Slot::initToken body (C14)',
+                   assumptions=['INV (harness/C03/login_ind.cpp): not both SO and user logged in; SO logged in => no RO session on the token; somebody logged in => the token has a session; session table entry i has internal handle i+1 - proved inductive by the same obligations'])
